@@ -8,7 +8,7 @@ print(f"""You are testing how robust a Go codebase's quality gates are. The repo
 
     mkdir -p /tmp/mut && git -C /repo worktree add --detach {wt} HEAD && cd {wt}
 
-Never edit /repo itself and never read or write anything under /verif (it is off limits for this task). Go environment for every shell call: `export GOPROXY=off` (do not set GOSUMDB; do not try to download anything — there is no network). Build with `go build ./...`; run tests of a package with `go test -vet=off -count=1 ./path/...` (the SDK module is in sdk/go/hydraidego — cd there to test it).
+Never edit /repo itself and never read or write anything under /verif (it is off limits for this task). Go environment for every shell call: `export GOPROXY=off` (do not set GOSUMDB; do not try to download anything — there is no network). NEVER use `git stash` (the stash is shared between all worktrees of this repository and other people are working in theirs) — use `git diff > file`, `git checkout -- .` and `git apply file` instead. Notes on the existing tests: the test binary of ./app/core/hydra/swamp does not compile even at pristine HEAD (ignore that package); the gateway tests leave git-ignored app/server/gateway/data and settings directories behind — delete them before re-running; app/core/hydra/lock TestLockBusyWaitDetection is load-sensitive (re-run it alone if it fails). Build with `go build ./...`; run tests of a package with `go test -vet=off -count=1 ./path/...` (the SDK module is in sdk/go/hydraidego — cd there to test it).
 
 Here is a semantic property the system is supposed to satisfy:
 
